@@ -65,7 +65,9 @@ Send == /\ stage = "kwargs" /\ stage' = "sent" /\ nreq' = nreq + 1
 Documented == {op.rs[k].status : k \in 1..Len(op.rs)}
 HowOf(s) == op.rs[CHOOSE k \in 1..Len(op.rs) : op.rs[k].status = s].how
 \* the return type collapses to Any when no response has a typed schema: then nothing is parsed and sync()/asyncio() do not exist
-Typed == \E k \in 1..Len(op.rs) : op.rs[k].how \in {"model", "text", "list", "int", "file"}
+Typed == \E k \in 1..Len(op.rs) : op.rs[k].how \in {"model", "text", "list", "int", "file", "const", "ndjson"}
+\* "const": a JSON response whose schema is a const (decoded by cast to the Literal type); "ndjson": a text/* media type whose subtype merely ENDS in
+\* the letters json (text/x-ndjson) with a string schema - text, not JSON.
 \* "t0int": the response lists text/plain WITHOUT a schema first and application/json with an integer schema second.  response_from_data
 \* takes the first supported media type only, and a media type without a schema documents no payload: nothing is parsed, nothing is typed.
 ParsedOf(s) == IF s \in Documented THEN (IF Typed THEN (IF HowOf(s) = "t0int" THEN "none" ELSE HowOf(s)) ELSE "None") ELSE "None"
